@@ -75,13 +75,36 @@ TEXT["C04"] = dict(ref="DESIGN.md 4 C04", technique="TLC enumeration of hostile 
     note=NOTE + "Ill-typed message *fields* and byte-level hostility need a serializer and belong to the transport family (C15); data races are looked for by the "
     "-race variant of the concurrency checks. Structural enumeration, not all byte strings.")
 
+CONC = ("Leg 1 for this property is spec/Conc.tla, the PlusCal skeleton of the realm's goroutines and channels (session handlers, broker, dealer, realm, "
+        "call timer, attacher, closer, clients that may stop reading): TLC explores every interleaving of a small population; the named deviations that "
+        "reproduce the defects found (now fixed) are each re-checked to be caught, so the invariants are not vacuous. ")
+TEXT["C06"] = dict(ref="DESIGN.md 4 C06", technique="TLC model checking of the PlusCal goroutine skeleton + crash-point scenarios (Close/RemoveRealm at every kind of point, concurrent inputs, gate-held handshakes) replayed on the router + TLC trace validation",
+    level=CONC + "Invariants: no send on / close of a closed channel, nothing of the router left when Close has returned, every started session closed; liveness: Close returns. "
+    "Conformance: every generated scenario is cut at a seeded point where Router.Close or RemoveRealm is called, in most cases while the next input, or a new "
+    "handshake (optionally held at the verif gate right before its WELCOME) is in flight; then attach attempts, a two hour advance of the virtual clock (every "
+    "timer that was pending fires) and the router goroutine count. TLC validates: the call returned, every attached session saw GOODBYE system_shutdown or its "
+    "transport closed and nothing after, later attaches ended with ABORT/error, no router goroutine is left; a dead worker is a crash verdict.",
+    note=NOTE + "Real-code schedules are sampled (the Go scheduler inside the bubble, plus the gate for the one window TLC pointed at); exhaustive interleavings only on Conc.tla.")
+TEXT["C07"] = dict(ref="DESIGN.md 4 C07", technique="TLC model checking of the PlusCal goroutine skeleton (bounded queues, wedge freedom as liveness) + stalled-client scenarios and concurrent bursts replayed on the router + TLC trace validation",
+    level=CONC + "Invariants: queues bounded, no panic; liveness: the broker always finishes the action it holds whatever the clients do, Close returns. Conformance: Core.tla "
+    "models per-session bounded queues with drop-on-full, clients that stop and resume reading, and the result-retry exception exactly (retry instants start+2^k-1 ms, "
+    "cancel at the first attempt after 60 s); scenarios stall every kind of session with queue sizes 1, 2 and 64 and compare what every other session receives, "
+    "with virtual timestamps (no delay); publication bursts from concurrent senders must be received completely by every reading session.",
+    note=NOTE + "A session that does not read sends nothing in generated scenarios (ids in queued replies cannot be bound). Deadlock freedom of the real binary is sampled; exhaustive on Conc.tla.")
+TEXT["C08"] = dict(ref="DESIGN.md 4 C08", technique="TLC model checking of the PlusCal goroutine skeleton (per-publisher order) + concurrent bursts replayed on the router + TLC validation of every receiver's log against the C08 orders",
+    level=CONC + "Invariant: events of one publisher reach each subscriber in publication order (violated by the DevAsyncPublish deviation). Conformance: bursts - "
+    "several sessions send numbered publications, calls (answered by auto-responding callees with numbered progressive results) and subscribe/unsubscribe churn "
+    "concurrently on real goroutines; TLC checks on every receiver's recorded log: per (publisher, topic, subscription) publication order, per caller call order at the callee, "
+    "progressive results in order before the final one, EVENT only between SUBSCRIBED and UNSUBSCRIBED, INVOCATION only between REGISTERED and UNREGISTERED.",
+    note=NOTE + "Schedules are those the Go scheduler produces in the bubble (several seeds); the oracle is exhaustive over whatever schedule occurred.")
+
 NOT_APPLICABLE = {}
 
 ENGINES = [
     {"name": "hostile", "path": "/verif/tools/families.py run_hostile; spec/Hostile.tla; harness/exec.go hostile()",
      "serves_properties": ["C04"], "kind_free_text": "TLC-enumerated hostile inputs, crash isolation, probe validation against Core.tla"},
     {"name": "core", "path": "/verif/tools/families.py run_core; spec/Core.tla MC.tla Gen.tla Trace.tla; harness/exec.go",
-     "serves_properties": ["C01", "C02", "C03", "C05", "C10", "C11", "C12", "C13", "C18", "C20"],
+     "serves_properties": ["C01", "C02", "C03", "C05", "C06", "C07", "C08", "C10", "C11", "C12", "C13", "C18", "C20"],
      "kind_free_text": "TLC model checking, TLC scenario generation, replay into the real router under synctest, TLC trace validation"},
 ]
 
